@@ -153,3 +153,10 @@ add("pol_half_test", "C10", "R10.4", "round_fract",
 
 add("r03_7_signed_rem", "C03", "R03.7", "sqrt",
     [("float/src/root.rs", "        let shift = self.precision as isize * 2 - (digits & 1) + (x.exponent & 1) - digits;", "        let shift = self.precision as isize * 2 - (digits & 1) + (x.exponent % 2) - digits;")])
+
+add("r15_6_sign_on_lhs", "C15", "R15.6", "repr_add_large_small",
+    [("float/src/add.rs", "            (lhs.significand + rhs_sign * rhs_signif, lhs.exponent)\n", "            (rhs_sign * lhs.significand + rhs_signif, lhs.exponent)\n")])
+add("r20_7_debug_only_check", "C20", "R20.7", "parse_ratio_with_error",
+    [("macros/src/parse/ratio.rs", "    let num_val = num_val.ok_or(ParseError::NoDigits)?;\n", "    debug_assert!(!(den_marked && den_val.is_none()));\n    let num_val = num_val.ok_or(ParseError::NoDigits)?;\n")])
+add("r17_5_copy_count", "C17", "R17.5", "clone_from_slice",
+    [("integer/src/buffer.rs", "                ptr::copy_nonoverlapping(src.as_ptr(), self.ptr.as_ptr(), src.len());", "                ptr::copy_nonoverlapping(src.as_ptr(), self.ptr.as_ptr(), self.capacity);")])
